@@ -107,6 +107,15 @@ def gen_model(rng, cfg=None, feats=None):
             n_cS = 1
     if n_dS + n_cS == 0:
         n_cS = 1
+    if cfg.get("n_cS") is not None:
+        n_cS = int(cfg["n_cS"])
+        if n_cS == 0:
+            n_dS = max(n_dS, 1)
+            for k_ in ("two_cont_states", "leave_above", "leave_below"):
+                F[k_] = False
+    if not cfg.get("allow_stochastic", True):
+        F["stochastic"] = False
+        F["stoch_multi_dep"] = False
     if cfg.get("n_cC") is not None:
         n_cC = int(cfg["n_cC"])
         if F["two_cont_choices"] and n_cC < 2:
@@ -457,7 +466,7 @@ def gen_model(rng, cfg=None, feats=None):
                 continue
             r = rng.random()
             want_st = F["stochastic"] and not any(True for _ in stochastic)
-            if (want_st or r < 0.25) and not (restricted and excluded_any):
+            if (want_st or r < 0.25) and not (restricted and excluded_any) and cfg.get("allow_stochastic", True):
                 pool = [x for x in dS + dC]
                 deps = [d for d in pool if rng.random() < 0.4]
                 if F["stoch_multi_dep"] and len(deps) < 2 and len(pool) >= 2:
@@ -513,6 +522,9 @@ def gen_model(rng, cfg=None, feats=None):
                 else:
                     functions.append([name, [k], f"({k} + 1) % {n}"])
                 params[name] = {}
+        elif cfg.get("cont_transition") == "identity":
+            functions.append([name, [k], f"{k}"])
+            params[name] = {}
         else:
             args = [k]
             p = pname()
